@@ -1,6 +1,198 @@
-(* C06 — theorems being added *)
+(* C06 — token supply is conserved except for burned fees (reference VM).
+
+   Model: Model/Chain.v (execute_block / run_txs / run_tx / execute_tx / run_actions / run_ops with the
+   reference VM's Transfer action [OTransfer] and the morpheusvm balance handler sub_balance / add_balance,
+   delete-at-zero), tied to the Go code by Check/C06_check.v (= Chain_check.check_case) on blocks of real
+   examples/morpheusvm Transfer transactions.  Definitions: Model/Supply.v ([supply], [wf_state], [vmap],
+   [transfer_tx] ...), Model/ChainHistory.v ([post_data], [next_parent], [run_chain]).
+   Proofs: Proofs/Supply_proofs.v.
+
+   What "supply" is.  [supply m] = the sum of [be_dec v] over ALL entries of the data state m (a finite map;
+   the three metadata keys are kept apart in [parent_state]).  Under [wf_state m] — every value is the 8-byte
+   encoding of a uint64, which is what the reference VM's state consists of — this is the sum over all
+   keys of the balance GetBalance returns ([parse_u64 v = Some (be_dec v)]).  Nothing else is assumed:
+   in particular NOT that the total fits in 64 bits (a receiver overflow makes the action fail and is
+   rolled back), nor that accounts are distinct, nor anything on amounts.
+
+   Scope.  The theorems are for transactions all of whose actions are Transfer actions ([transfer_tx]: any
+   number of actions, each any list of Transfer operations, any of them failing) — the reference VM.  The
+   scripted put/delete operations of the harness can write arbitrary bytes and are excluded.  Both balance
+   handlers for the fee ([t_morpheus] true or false) are covered.  The state view a transaction runs on
+   holds only the declared keys of the parent; C06_tx_in_block lifts the statement to the WHOLE state. *)
 From stdpp Require Import gmap.
-From HV Require Import Model.Keys Model.Tstate Model.Fees Model.Chain.
-Theorem C06_placeholder_too_late : forall r mk p b, b_too_late b = true -> execute_block r mk p b = inr (clsTooLate, 0%N).
-Proof. intros r mk p b H. unfold execute_block. rewrite H. reflexivity. Qed.
-Print Assumptions C06_placeholder_too_late.
+From Coq Require Import NArith ZArith Lia.
+From HV Require Import Lib.Bytes Lib.U64 Model.Keys Model.Tstate Model.Fees Model.Chain
+                       Model.ChainHistory Model.Supply
+                       Proofs.Tstate_proofs Proofs.Supply_proofs.
+From HV Require Check.C06_check.
+Local Open Scope N_scope.
+
+(* One Transfer (sub_balance from, add_balance to) through a state view, for ANY from/to (also from = to),
+   any amount (0 is refused; the full balance deletes the sender's key), any receiver balance (an overflowing
+   receiver makes the action FAIL after the sender was debited): if it succeeds the supply of the visible
+   state is unchanged; if it fails, rolling back to the checkpoint taken before it (what Transaction.Execute
+   does) restores the visible state exactly. *)
+Theorem C06_transfer_conserves : forall s from to value memo_ok out s' x,
+  view_ok s -> wf_state (vmap s) ->
+  run_ops s [OTransfer from to value memo_ok] out = (s', x) ->
+  match x with
+  | inl _ => supply (vmap s') = supply (vmap s) /\ wf_state (vmap s')
+  | inr _ => vmap (rollback s' (op_index s)) = vmap s
+  end.
+Proof. exact transfer_conserves. Qed.
+Print Assumptions C06_transfer_conserves.
+
+(* Transaction.Execute on a view: for every transaction made of Transfer actions (any number, any of them
+   failing, emptying and refilling accounts), supply after + fee = supply before. *)
+Theorem C06_tx : forall t u f s s' res,
+  transfer_tx t -> view_ok s -> wf_state (vmap s) ->
+  execute_tx t u f s = Some (s', res) ->
+  supply (vmap s') + res_fee res = supply (vmap s) /\ wf_state (vmap s').
+Proof.
+  intros t u f s s' res Ht Hok Hwf H.
+  destruct (execute_tx_supply t u f s s' res Ht Hok Hwf H) as (E & W & _ & ->). auto.
+Qed.
+Print Assumptions C06_tx.
+
+(* One task of the block, on the WHOLE state (parent + the block's diff so far), although the transaction's
+   view only holds its declared keys: an included transaction burns exactly its fee, a rejected one changes
+   nothing. *)
+Theorem C06_tx_in_block : forall r fm parent ts st t sk u st' x,
+  transfer_tx t -> wf_state (overlay (ts_changed st) parent) ->
+  run_tx r fm parent ts st t sk u = (st', x) ->
+  wf_state (overlay (ts_changed st') parent)
+  /\ match x with
+     | inl res => supply (overlay (ts_changed st') parent) + res_fee res = supply (overlay (ts_changed st) parent)
+     | inr _ => st' = st
+     end.
+Proof. exact run_tx_supply. Qed.
+Print Assumptions C06_tx_in_block.
+
+(* One accepted block of Transfer transactions: supply(post-state) + sum of the fees in the block's results
+   = supply(parent state); and the post-state is again well formed. *)
+Theorem C06_block : forall r mk p b o,
+  transfer_block b -> wf_state (p_data p) ->
+  execute_block r mk p b = inl o ->
+  supply (post_data p o) + fees (o_results o) = supply (p_data p) /\ wf_state (post_data p o).
+Proof. exact block_supply. Qed.
+Print Assumptions C06_block.
+
+(* Any history of accepted blocks: the final supply plus all fees charged = the initial supply. *)
+Theorem C06_history : forall r mk bs p p' os,
+  Forall transfer_block bs -> wf_state (p_data p) ->
+  run_chain r mk p bs = Some (p', os) ->
+  supply (p_data p') + chain_fees os = supply (p_data p) /\ wf_state (p_data p').
+Proof. intros r mk. exact (chain_supply r mk). Qed.
+Print Assumptions C06_history.
+
+(* [post_data] is the post-state the correspondence check compares ([post_value] on every key). *)
+Theorem C06_post_data_is_post_value : forall p o k, post_data p o !! k = post_value p o k.
+Proof. exact Header_proofs.post_data_lookup. Qed.
+Print Assumptions C06_post_data_is_post_value.
+
+(* The executable specification of Check/C06_check.v ([spec_one]) is this equation: over a duplicate-free
+   universe of accounts covering every key present in the state, the checker's [sum_vals] of the looked-up
+   values is [supply], and its sum of [res_fee] is [fees]. *)
+Theorem C06_checker_vocabulary : forall (m : gmap key val) (universe : list key) (rs : list result),
+  NoDup universe -> (forall k, is_Some (m !! k) -> In k universe) ->
+  C06_check.sum_vals (map (fun k => m !! k) universe) = supply m
+  /\ fold_left N.add (map res_fee rs) 0 = fees rs.
+Proof.
+  intros m l rs Hnd Hcov. split; [|apply fold_left_add_right].
+  unfold C06_check.sum_vals. rewrite fold_left_add_right, map_map. apply (supply_universe l m Hnd Hcov).
+Qed.
+Print Assumptions C06_checker_vocabulary.
+
+(* ---------------------------------------------------------------- non-vacuity *)
+
+Definition ex_rules : rules :=
+  mkRules 100 750 [1; 1; 1; 1; 1] [48; 48; 48; 48; 48] [1000; 1000; 1000; 1000; 1000]
+          [1000000; 1000000; 1000000; 1000000; 1000000] 60000 16 1 5 2 20 5 10 3.
+Definition ex_mk : meta_keys := mkMeta [0; 0; 1] [1; 0; 1] [2; 0; 8].
+Definition keyA : key := [0; 65; 0; 1].
+Definition keyB : key := [0; 66; 0; 1].
+Definition keyC : key := [0; 67; 0; 1].
+
+(* A rich, B absent, C two units below 2^64-1 *)
+Definition ex_data : gmap key val := <[keyA := be64 100000]> (<[keyC := be64 (MaxU64 - 2)]> ∅).
+Definition ex_parent : parent_state := mkParent ex_data (Some 5) 500 (mkFee 0 [1; 1; 1; 1; 1] [] []).
+
+Definition transfer (from to : key) (v : N) : action :=
+  mkAction 1 [(from, 5); (to, 7)] [OTransfer from to v true] (-1) (-1).
+Definition mk_tx (acts : list action) : tx := mkTx 2000 true 1000000 keyA true 1 (-1) (-1) 100 true acts.
+
+(* tx1: A -> B 5 (creates B).  tx2: A -> A 7 (self), B -> A 5 (empties B: key deleted), A -> B 3 (re-creates B).
+   tx3: A -> C 5 overflows C: the action fails after A was debited, is rolled back, the fee is still charged. *)
+Definition ex_block : block :=
+  mkBlock 1000 6 true false false None
+    [mk_tx [transfer keyA keyB 5];
+     mk_tx [transfer keyA keyA 7; transfer keyB keyA 5; transfer keyA keyB 3];
+     mk_tx [transfer keyA keyB 1; transfer keyA keyC 5]].
+
+Lemma ex_wf : wf_state ex_data.
+Proof. unfold ex_data. repeat apply wf_insert_be64; try apply wf_empty; unfold MaxU64; lia. Qed.
+
+Lemma ex_transfer_block : transfer_block ex_block.
+Proof. unfold transfer_block, transfer_tx, transfer_action, ex_block. cbn. repeat constructor. Qed.
+
+Example C06_block_nonvacuous : exists o,
+  execute_block ex_rules ex_mk ex_parent ex_block = inl o
+  /\ transfer_block ex_block /\ wf_state (p_data ex_parent)
+  /\ map res_success (o_results o) = [true; true; false]
+  /\ 0 < fees (o_results o)
+  /\ post_data ex_parent o !! keyB = Some (be64 3).
+Proof.
+  eexists. split; [vm_compute; reflexivity|]. split; [exact ex_transfer_block|]. split; [exact ex_wf|].
+  vm_compute. auto.
+Qed.
+
+Definition ex_block2 : block :=
+  mkBlock 1100 7 true false false None [mk_tx [transfer keyA keyB 98000]; mk_tx [transfer keyB keyA 98003]].
+
+Example C06_history_nonvacuous : exists p' os,
+  run_chain ex_rules ex_mk ex_parent [ex_block; ex_block2] = Some (p', os)
+  /\ Forall transfer_block [ex_block; ex_block2]
+  /\ length os = 2%nat /\ p_data p' !! keyB = None.
+Proof.
+  eexists. eexists. split; [vm_compute; reflexivity|].
+  split. { repeat constructor. }
+  vm_compute. auto.
+Qed.
+
+(* hypotheses of C06_transfer_conserves / C06_tx: a view over a well-formed state; success, self-transfer and
+   the overflow failure *)
+Definition ex_view : view := new_view ts_new ScopeAll ex_data.
+
+Example C06_view_nonvacuous :
+  view_ok ex_view /\ wf_state (vmap ex_view)
+  /\ (exists s' o, run_ops ex_view [OTransfer keyA keyB 100000 true] [] = (s', inl o))
+  /\ (exists s' o, run_ops ex_view [OTransfer keyA keyA 100000 true] [] = (s', inl o))
+  /\ (exists s', run_ops ex_view [OTransfer keyA keyC 3 true] [] = (s', inr AEBalance)).
+Proof.
+  split; [apply view_ok_new|]. split.
+  { unfold ex_view. rewrite vmap_full_view, dstate_new. exact ex_wf. }
+  split; [eexists; eexists; vm_compute; reflexivity|].
+  split; [eexists; eexists; vm_compute; reflexivity|].
+  eexists; vm_compute; reflexivity.
+Qed.
+
+Example C06_tx_nonvacuous : exists s' res,
+  execute_tx (mk_tx [transfer keyA keyB 1; transfer keyA keyC 5]) [100; 3; 10; 10; 10] 133 ex_view = Some (s', res)
+  /\ res_success res = false /\ res_fee res = 133
+  /\ transfer_tx (mk_tx [transfer keyA keyB 1; transfer keyA keyC 5]).
+Proof.
+  eexists. eexists. split; [vm_compute; reflexivity|]. split; [reflexivity|]. split; [reflexivity|].
+  unfold transfer_tx, transfer_action. cbn. repeat constructor.
+Qed.
+
+Example C06_vocabulary_nonvacuous :
+  NoDup [keyA; keyB; keyC] /\ (forall k, is_Some (ex_data !! k) -> In k [keyA; keyB; keyC])
+  /\ supply ex_data = 100000 + (MaxU64 - 2).
+Proof.
+  split. { repeat constructor; set_solver. }
+  split; [|vm_compute; reflexivity].
+  intros k [v H]. unfold ex_data in H.
+  destruct (decide (keyA = k)) as [<-|N1]; [cbn; auto|]. rewrite lookup_insert_ne in H by exact N1.
+  destruct (decide (keyC = k)) as [<-|N2]; [cbn; auto|]. rewrite lookup_insert_ne in H by exact N2.
+  rewrite lookup_empty in H. discriminate.
+Qed.
